@@ -898,8 +898,8 @@ def _config_fields(ctx, col):
 
 def _config_or_kwargs(body) -> bool:
     for s in body:
-        if isinstance(s, ast.If) and ast.unparse(s.test) == "config is not None" and len(s.body) == 1 and len(s.orelse) == 1:
-            a, b = s.body[0], s.orelse[0]
+        if isinstance(s, ast.If) and ast.unparse(s.test) in ("config is not None", "config is None") and len(s.body) == 1 and len(s.orelse) == 1:
+            a, b = (s.body[0], s.orelse[0]) if ast.unparse(s.test) == "config is not None" else (s.orelse[0], s.body[0])
             return (isinstance(a, ast.Assign) and ast.unparse(a) == "self.config = config"
                     and isinstance(b, ast.Assign) and ast.unparse(b) == "self.config = self.Config(**kwargs)")
     return False
